@@ -121,7 +121,8 @@ def make_cases(ctx, rng):
             colls.append({"rows": rows})
             id0 += 10
         cases.append({"kind": "rolluptool", "colls": colls, "extra_levels": [["prec"], ["mod"], ["mod", "prec"]][j % 3], "dedup": bool(j % 2),
-                      "chunk": 1 + j % 5, "fmt": "pin", "prefixes": ["a", "b", "c"][:k], "workers": 1})
+                      # (a collection whose prefix BEGINS WITH the tool's file root "rollup" is still an input, not an earlier output)
+                      "chunk": 1 + j % 5, "fmt": "pin", "prefixes": (["a", "rollup2", "c"] if j % 4 == 1 else ["a", "b", "c"])[:k], "workers": 1})
     # the command-line run: naming configurations enumerated by TLC from Pipeline.tla
     pipe = [p for p in run_tlc("Pipeline", "Pipeline_gen.cfg", workers=1).prints if p and p[0] == "CASE"]
     if len(pipe) < 100:
